@@ -104,6 +104,8 @@ func (f *Chip) verifyMerkleProofToCapWithCapIndex(
 	currentDigest := f.poseidonBN254Chip.HashOrNoop(leafData)
 	for i, sibling := range proof.Siblings {
 		bit := leafIndexBits[i]
+		// The ordering below is only a selection for boolean bits; api.Select asserts that on R1CS but not on SCS.
+		f.api.AssertIsBoolean(bit)
 
 		var inputs poseidon.BN254State
 		inputs[0] = frontend.Variable(0)
